@@ -605,3 +605,41 @@ def r17(ctx, P):
 
 def ev_after(fn, a, b):
     return (a.block is b.block and a.idx < b.idx) or _reaches(fn, a, b)
+
+
+# --------------------------------------------------------------------------- C10.18
+
+def r18(ctx, P, rule='C10.18'):
+    """what the threaded writer remembers about a definition comes from an accepted definition only"""
+    from ..guard import zero_edges_of_call
+    n = 0
+    for fn in P.fns_in('src/threaded_writer.c'):
+        defs = [c for c in fn.calls() if c.callee in ('jls_wr_signal_def', 'jls_wr_source_def')]
+        if not defs:
+            continue
+        for ev in fn.stores():
+            lhs, rhs, o = ev.store_parts()
+            p = fn.path(strip_casts(lhs))
+            if p is None or p.root_kind != 'param' or rhs is None or ev.k != 'store':
+                continue
+            # a store into the instance whose value derives from the definition argument
+            darg = defs[0].args[1]
+            dname = strip_casts(darg).get('name')
+            if not any(nd.get('op') == 'ref' and nd.get('name') == dname for nd in walk(rhs)) and \
+                    not any(nd.get('op') == 'ref' and nd.get('name') == dname for nd in walk(lhs)):
+                continue
+            if not any(nd.get('op') == 'ref' and nd.get('name') == dname for nd in walk(rhs)):
+                continue
+            n += 1
+            ctx.saw(fn, 1)
+            ok_edges = set()
+            for c in defs:
+                ok_edges |= zero_edges_of_call(fn, c)
+            # every path from the entry to the store passes a zero-result edge of the definition call
+            w = find_path(fn, 'entry', lambda e2, facts: 'target' if e2 is ev else None, refine=False,
+                          edge_ok=lambda b, s, label: (b.id, label) not in ok_edges)
+            ctx.ob(rule, w is None and bool(ok_edges), fn.name, 'store to %s' % str(p), ev.where(),
+                   'only after %s() returned 0' % defs[0].callee if (w is None and ok_edges) else
+                   'the value taken from the requested definition is remembered even when %s() rejects it (duplicate id, invalid parameters): later calls size their copies from a definition that is not in the file' % defs[0].callee,
+                   w.render() if w else None)
+    ctx.floor('definition-derived state in the threaded writer', n, 1)
